@@ -14,11 +14,12 @@ class Target:
     """A test problem: affine prior transform on [lo, hi]^d and a likelihood in scalar / vectorised /
     blob-returning form that are pointwise identical (same floating-point operations per point)."""
 
-    def __init__(self, n_dim, kind="gauss", lo=-5.0, hi=5.0, shift=0.0, support=None):
+    def __init__(self, n_dim, kind="gauss", lo=-5.0, hi=5.0, shift=0.0, support=None, quant=None):
         self.n_dim = n_dim
         self.kind = kind
         self.lo, self.hi = lo, hi
         self.shift = shift
+        self.quant = quant  # None, or q: log-likelihood values rounded to multiples of 2^-q (dyadic: adding a dyadic shift is exact)
         self.support = support  # None or fraction f: likelihood is zero unless u_0 < f  (x_0 < lo + f (hi-lo))
         if kind == "gauss":
             self.mu = np.linspace(-1.0, 1.0, n_dim) if n_dim > 1 else np.array([0.5])
@@ -51,6 +52,8 @@ class Target:
         else:
             for j in range(self.n_dim):
                 s += -0.5 * ((x[j] - self.mu[j]) / self.sig[j]) ** 2
+        if self.quant is not None:
+            s = float(np.round(s * 2.0 ** self.quant) / 2.0 ** self.quant)
         return float(s + self.shift)
 
     def logl_scalar(self, x):
@@ -84,7 +87,7 @@ class PermutingPool:
 DEFAULTS = dict(n_dim=2, n_particles=8, ess_ratio=2.0, volume_variation=None, evaluation="scalar", periodic=None,
                 reflective=None, pool=None, clustering=True, normalize=True, cluster_every=1, split_threshold=1.0,
                 n_max_clusters=None, sample="tpcn", n_steps=None, n_max_steps=None, resample="mult",
-                random_state=None, target="gauss", support=None, shift=0.0)
+                random_state=None, target="gauss", support=None, shift=0.0, quant=None)
 
 
 def build_sampler(conf: dict, rec: psrun.Recorder | None, out_dir=None):
@@ -92,7 +95,7 @@ def build_sampler(conf: dict, rec: psrun.Recorder | None, out_dir=None):
 
     c = dict(DEFAULTS)
     c.update(conf)
-    tgt = Target(c["n_dim"], c["target"], shift=c["shift"], support=c["support"])
+    tgt = Target(c["n_dim"], c["target"], shift=c["shift"], support=c["support"], quant=c["quant"])
     ev = c["evaluation"]
     if ev == "vector":
         ll, vec, bd = tgt.logl_vector, True, None
